@@ -363,6 +363,64 @@ func clientWireConnecting(name string, plan [][]int, bound int) *vx.Scenario {
 	return sc
 }
 
+// clientWireFlushRace: the same, aimed at the moment the client handles the CONNECT reply (state change, flush
+// of what was buffered while connecting). The first event of the emitter is buffered while the socket connects;
+// the reply travels for L of virtual time; the emitter goes on with its other events exactly when the reply
+// arrives, and only from that instant on the schedules are explored - the race between the flush and the
+// emitter costs one or two deviations here instead of three from the start of the connection.
+func clientWireFlushRace(name string, plan [][]int, bound int) *vx.Scenario {
+	const L = 100 * time.Millisecond
+	sc := &vx.Scenario{Name: name, Bound: bound, Horizon: 10 * time.Second}
+	sc.Body = func(e *vsched.Exec) func() vx.Result {
+		vsched.SetExploring(false)
+		srv, mgr, link := vrig.NewSioPair(nil, nil)
+		var v vsched.Var
+		admitted := false
+		srv.Use(func(s sio.ServerSocket, h *sio.Handshake) any {
+			v.Do(func() { admitted = true })
+			return nil
+		})
+		srv.OnConnection(func(s sio.ServerSocket) {})
+		link.V.Do(func() { link.RespLatency = L })
+		sock := mgr.Socket("/", nil)
+		sock.Connect()
+		started := 0
+		for em := range plan {
+			em := em
+			vsched.GoQuiet(fmt.Sprintf("emitter%d", em), func() {
+				for seq, natt := range plan[em] {
+					if seq == 1 {
+						// the server has admitted the socket: its reply is in flight and arrives L later
+						vsched.Await(func() bool { return admitted })
+						vsched.Sleep(L)
+						v.Do(func() { started++ })
+						vsched.SetExploring(true)
+					}
+					sock.Emit("e", emitArgs(em, seq, natt)...)
+				}
+			})
+		}
+		return func() vx.Result {
+			var r vx.Result
+			frames, err := postsToFrames(link.Posts)
+			if err != nil {
+				r.Violate("client wire: POST body not decodable", "%v", err)
+				return r
+			}
+			var ev []wireFrame
+			for _, f := range frames {
+				if !f.binary && len(f.data) > 0 && f.data[0] == '0' {
+					continue
+				}
+				ev = append(ev, f)
+			}
+			judgeWire(&r, "client (emitting while it connects)", ev, plan)
+			return r
+		}
+	}
+	return sc
+}
+
 // ---- (b) application level: handler-entry order
 
 func orderKey(side string, sites []string) string {
@@ -506,6 +564,8 @@ func scenarios(tier string) []*vx.Scenario {
 		clientWire("client-wire/2x2-mixed", [][]int{{0, 2}, {1, 0}}, bw-2),
 		clientWireConnecting("client-wire-connecting/1x3", [][]int{{0, 1, 0}}, bw-2),
 		clientWireConnecting("client-wire-connecting/2x2", [][]int{{0, 1}, {1, 0}}, bw-2),
+		clientWireFlushRace("client-wire-connecting/emitter-meets-the-CONNECT-reply/1x3", [][]int{{0, 1, 0}}, bw-1),
+		clientWireFlushRace("client-wire-connecting/emitter-meets-the-CONNECT-reply/2x2", [][]int{{0, 1}, {1, 0}}, bw-2),
 		serverApp("server-app/2-separate-frames", 2, false, ba),
 		serverApp("server-app/3-one-payload", 3, true, ba),
 		clientApp("client-app/2", 2, ba),
